@@ -164,15 +164,23 @@ impl E2Run for Sock {
                     _ => *[mss, 30_000, 70_000, 100_000].get(sim::choose(4) as usize).unwrap(),
                 }
             };
+            // trickle: one client sends hundreds of small spaced writes to a reader that starts
+            // only when all of them have arrived (every write is a message of its own in the
+            // receiving socket's queue)
+            let trickle = stream_mode && !avoid_late && sim::chance(1, 12);
+            if trickle {
+                sim::count("probe_trickle_to_a_late_reader");
+            }
             let max_dgram = mtu as usize - 28 - 20;
             let mut client_plans = vec![];
             for c in 0..n_clients {
-                let n_writes = 1 + sim::choose(if size_class >= 9 { 4 } else { 40 }) as usize;
-                let spaced = avoid_b2b || sim::chance(1, 3);
+                let trickling = trickle && c == 0;
+                let n_writes = if trickling { 260 + sim::choose(200) as usize } else { 1 + sim::choose(if size_class >= 9 { 4 } else { 40 }) as usize };
+                let spaced = avoid_b2b || trickling || sim::chance(1, 3);
                 let mut writes = vec![];
                 for _ in 0..n_writes {
-                    let n = if stream_mode { pick_size() } else { 8 + sim::choose(max_dgram as u64 - 8) as usize };
-                    let gap = if spaced { 150 + sim::choose(200) } else if sim::chance(1, 6) { sim::choose(50) } else { 0 };
+                    let n = if trickling { 1 + sim::choose(64) as usize } else if stream_mode { pick_size() } else { 8 + sim::choose(max_dgram as u64 - 8) as usize };
+                    let gap = if trickling { 2 + sim::choose(9) } else if spaced { 150 + sim::choose(200) } else if sim::chance(1, 6) { sim::choose(50) } else { 0 };
                     writes.push((n, gap));
                 }
                 if !spaced && n_writes > 1 {
@@ -186,7 +194,7 @@ impl E2Run for Sock {
             let server_read_sizes: Vec<usize> = (0..6).map(|_| *[1usize, 3, 4, 50, 1000, 1460, 70_000].get(sim::choose(7) as usize).unwrap()).collect();
             let server_msg_mode = !stream_mode || sim::chance(1, 5);
             let cancel_pm = *[0u64, 0, 100, 300].get(sim::choose(4) as usize).unwrap();
-            let reader_lag = if avoid_late { 0 } else { sim::choose(3) * sim::choose(30) };
+            let reader_lag = if trickle { 700 } else if avoid_late { 0 } else { sim::choose(3) * sim::choose(30) };
             if reader_lag > 0 {
                 log2.lock().unwrap().late_reader = true;
             }
